@@ -271,90 +271,7 @@ func runC06(c *Ctx) {
 		})
 		c.Check("C06-R3", f.Key()+" every normal return passes the range store", c.Pos(f.Decl), len(bad) == 0, exitList(c, bad, "normal return without storing the sequence's range"))
 	}
-	// loops that remove membership: domain check
-	nLoops := 0
-	for _, fn := range c.P.FuncsOf("kvcache") {
-		if !allowed[fn.Name] {
-			continue
-		}
-		ast.Inspect(fn.Body, func(n ast.Node) bool {
-			var body *ast.BlockStmt
-			var domain string // "all" | "range:<seq expr>" | other
-			switch x := n.(type) {
-			case *ast.RangeStmt:
-				body = x.Body
-				if core.FieldVar(info, x.X) == fCells {
-					domain = "all"
-				}
-			case *ast.ForStmt:
-				body = x.Body
-				// for i := R.min; i <= R.max; i++ where R := c.cellRanges[seq]
-				if x.Init != nil && x.Cond != nil {
-					if as, ok := x.Init.(*ast.AssignStmt); ok && selName(as.Rhs[0]) == "min" {
-						if p := core.PathOf(info, as.Rhs[0]); p.Valid() {
-							g := c.G(fn)
-							for _, ra := range g.AssignsTo(p.Root) {
-								ast.Inspect(ra.Node, func(m ast.Node) bool {
-									if ix, isIx := m.(*ast.IndexExpr); isIx && core.FieldVar(info, ix.X) == fRanges {
-										domain = "range:" + core.ExprString(ix.Index)
-									}
-									return true
-								})
-							}
-						}
-					}
-				}
-			default:
-				return true
-			}
-			// does the body delete a sequence from cells[..].sequences directly (not in nested loops of its own)?
-			var removed []string
-			core.InspectShallow(body, func(m ast.Node) bool {
-				as, ok := m.(*ast.AssignStmt)
-				if !ok || len(as.Lhs) != 1 || core.FieldVar(info, as.Lhs[0]) != fSeqs {
-					return true
-				}
-				for _, call := range core.CallsTo(info, as.Rhs[0], false, "slices.DeleteFunc") {
-					if lit, isLit := call.Args[1].(*ast.FuncLit); isLit {
-						ast.Inspect(lit.Body, func(z ast.Node) bool {
-							if be, isB := z.(*ast.BinaryExpr); isB && be.Op == token.EQL {
-								removed = append(removed, core.ExprString(be.Y))
-							}
-							return true
-						})
-					}
-				}
-				return true
-			})
-			if len(removed) == 0 {
-				return true
-			}
-			// only the innermost loop containing the delete counts
-			inner := false
-			ast.Inspect(body, func(m ast.Node) bool {
-				switch y := m.(type) {
-				case *ast.RangeStmt:
-					if len(core.CallsTo(info, y.Body, false, "slices.DeleteFunc")) > 0 && ast.Node(y) != n {
-						inner = true
-					}
-				case *ast.ForStmt:
-					if len(core.CallsTo(info, y.Body, false, "slices.DeleteFunc")) > 0 && ast.Node(y) != n {
-						inner = true
-					}
-				}
-				return true
-			})
-			if inner {
-				return true
-			}
-			nLoops++
-			for _, seq := range removed {
-				ok := domain == "all" || domain == "range:"+seq
-				c.Check("C06-R3", fn.Key()+" removal of "+seq+" scans all cells or "+seq+"'s own range", c.Pos(n), ok, "the loop that drops sequence "+seq+" from cells iterates over "+domain+": cells of "+seq+" outside it keep their membership while cellRanges["+seq+"] is reset")
-			}
-			return true
-		})
-	}
+	nLoops := ruleRemovalDomain(c, "C06-R3", allowed)
 	c.Expect("C06-R3", "membership-removal loops", nLoops, 3)
 
 	// ------------------------------------------------------------------ R4
@@ -552,4 +469,100 @@ func lenOfField(info *types.Info, e ast.Expr) *types.Var {
 		return nil
 	}
 	return core.LastField(info, call.Args[0])
+}
+
+// ruleRemovalDomain: every loop that drops a sequence from cells[..].sequences iterates over
+// all cells or over that sequence's own recorded range. Returns the number of loops found.
+func ruleRemovalDomain(c *Ctx, rule string, only map[string]bool) int {
+	info := c.P.Pkgs["kvcache"].TypesInfo
+	fCells := c.P.LookupField("kvcache", "Causal", "cells")
+	fRanges := c.P.LookupField("kvcache", "Causal", "cellRanges")
+	fSeqs := c.P.LookupField("kvcache", "cacheCell", "sequences")
+	nLoops := 0
+	if fCells == nil || fRanges == nil || fSeqs == nil {
+		return 0
+	}
+	for _, fn := range c.P.FuncsOf("kvcache") {
+		if !only[fn.Name] {
+			continue
+		}
+		ast.Inspect(fn.Body, func(n ast.Node) bool {
+			var body *ast.BlockStmt
+			var domain string // "all" | "range:<seq expr>" | other
+			switch x := n.(type) {
+			case *ast.RangeStmt:
+				body = x.Body
+				if core.FieldVar(info, x.X) == fCells {
+					domain = "all"
+				}
+			case *ast.ForStmt:
+				body = x.Body
+				// for i := R.min; i <= R.max; i++ where R := c.cellRanges[seq]
+				if x.Init != nil && x.Cond != nil {
+					if as, ok := x.Init.(*ast.AssignStmt); ok && selName(as.Rhs[0]) == "min" {
+						if p := core.PathOf(info, as.Rhs[0]); p.Valid() {
+							g := c.G(fn)
+							for _, ra := range g.AssignsTo(p.Root) {
+								ast.Inspect(ra.Node, func(m ast.Node) bool {
+									if ix, isIx := m.(*ast.IndexExpr); isIx && core.FieldVar(info, ix.X) == fRanges {
+										domain = "range:" + core.ExprString(ix.Index)
+									}
+									return true
+								})
+							}
+						}
+					}
+				}
+			default:
+				return true
+			}
+			// does the body delete a sequence from cells[..].sequences directly (not in nested loops of its own)?
+			var removed []string
+			core.InspectShallow(body, func(m ast.Node) bool {
+				as, ok := m.(*ast.AssignStmt)
+				if !ok || len(as.Lhs) != 1 || core.FieldVar(info, as.Lhs[0]) != fSeqs {
+					return true
+				}
+				for _, call := range core.CallsTo(info, as.Rhs[0], false, "slices.DeleteFunc") {
+					if lit, isLit := call.Args[1].(*ast.FuncLit); isLit {
+						ast.Inspect(lit.Body, func(z ast.Node) bool {
+							if be, isB := z.(*ast.BinaryExpr); isB && be.Op == token.EQL {
+								removed = append(removed, core.ExprString(be.Y))
+							}
+							return true
+						})
+					}
+				}
+				return true
+			})
+			if len(removed) == 0 {
+				return true
+			}
+			// only the innermost loop containing the delete counts
+			inner := false
+			ast.Inspect(body, func(m ast.Node) bool {
+				switch y := m.(type) {
+				case *ast.RangeStmt:
+					if len(core.CallsTo(info, y.Body, false, "slices.DeleteFunc")) > 0 && ast.Node(y) != n {
+						inner = true
+					}
+				case *ast.ForStmt:
+					if len(core.CallsTo(info, y.Body, false, "slices.DeleteFunc")) > 0 && ast.Node(y) != n {
+						inner = true
+					}
+				}
+				return true
+			})
+			if inner {
+				return true
+			}
+			nLoops++
+			for _, seq := range removed {
+				ok := domain == "all" || domain == "range:"+seq
+				c.Check(rule, fn.Key()+" removal of "+seq+" scans all cells or "+seq+"'s own range", c.Pos(n), ok, "the loop that drops sequence "+seq+" from cells iterates over "+domain+": cells of "+seq+" outside it keep their membership while cellRanges["+seq+"] is reset")
+			}
+			return true
+		})
+	}
+	return nLoops
 }
